@@ -494,8 +494,9 @@ def rewrite_file(data, recs, fvec, lvecs, r, do_lines=True):
             stats["regions"] += 1
         cont = ln.endswith("\\")
         if cont or cont_prev or not do_lines:
-            new = ln
-            neol = eol
+            new = ln                      # continuation lines keep their text, but CR-LF is immaterial for them too
+            neol = eol_for(eol)
+            stats["cont_eol"] = stats.get("cont_eol", 0) + int(neol != eol)
         else:
             vec = r.choice(lvecs)
             info = {}
